@@ -50,21 +50,38 @@ def judge_one(ctx, case, M, v, Q, H, m_req, degree, preds):
                                                           np.all(np.real(sub) >= -tt)), site="arnoldi", preds=preds,
               detail={"below": float(np.abs(low).max(initial=0.0)), "sub_imag": float(np.abs(np.imag(sub)).max(initial=0.0)),
                       "sub_min": float(np.real(sub).min(initial=0.0))})
-    # Arnoldi relation A Q[:, :m] = Q H (the clipped normalisation is part of the algorithm: + tol ||A||)
-    # (for m > n the statement promises the n-step factorisation padded with zeros: the relation concerns its n columns;
-    # the (n+1)-th basis vector cannot be orthogonal to the first n and only has to be harmless)
-    Rm = M @ Q[:, :m_eff] - (Q @ H)[:, :m_eff]
+    # steps actually run: leading non-zero columns of H (the spectra here have modulus >= 1, so A q_j is never zero).  A run that
+    # stopped early (breakdown by the routine's own tolerance) is the s-step factorisation A Q[:, :s] = Q[:, :s+1] H[:s+1, :s]
+    # padded with zeros; everything after it must be exactly zero (Q[:, s] itself, the (s+1)-th basis vector, may be kept)
+    nz = [j for j in range(H.shape[1]) if np.abs(H[:, j]).max(initial=0.0) > 0]
+    s_run = (max(nz) + 1) if nz else 0
+    s_run = min(s_run, m_eff)
+    pad = max(np.abs(H[:, s_run:]).max(initial=0.0), np.abs(Q[:, s_run + 1:]).max(initial=0.0), np.abs(H[s_run + 1:, :]).max(initial=0.0))
+    ctx.check("zero-after-the-steps-run", bool(pad == 0), site="arnoldi", preds=preds, detail={"max_abs": float(pad), "steps_run": s_run, "m": m_req, "n": n})
+    if s_run < m_eff:
+        # stopping before the cap is only admissible as a breakdown: the last sub-diagonal entry is below tol relative to the
+        # scale the routine uses (||A q_0||, or ||A q_j|| for the freezing of exhausted columns)
+        last = abs(H[s_run, s_run - 1]) if s_run >= 1 else 0.0
+        scl = max(np.linalg.norm(H[:, 0]), np.linalg.norm(H[:, s_run - 1]) if s_run >= 1 else 0.0)
+        ctx.check("early-stop-is-a-breakdown", bool(s_run >= 1 and last <= tol * scl * (1 + 1e-9)), site="arnoldi", preds=preds,
+                  detail={"steps_run": s_run, "cap": m_eff, "last_subdiagonal": float(last), "tol_times_scale": float(tol * scl)})
+    # Arnoldi relation on the steps run (the clipped normalisation is part of the algorithm: + tol ||A||)
+    Rm = M @ Q[:, :s_run] - (Q @ H)[:, :s_run]
     ctx.check("arnoldi-relation", bool(np.abs(Rm).max(initial=0.0) <= 1e3 * eps * normA * n + 10 * tol * normA), site="arnoldi", preds=preds,
-              detail={"dev": float(np.abs(Rm).max(initial=0.0)), "normA": normA, "tol": tol})
-    # orthonormality of the first min(m+1, d) columns, to the accuracy a single-pass MGS Arnoldi can have:
-    # loss <= c * eps * kappa / rho_m, judged while the reference minimal relative residual rho_m >= 1e-8
+              detail={"dev": float(np.abs(Rm).max(initial=0.0)), "normA": normA, "tol": tol, "steps_run": s_run})
+    # orthonormality of the columns produced (at most min(m+1, d)), to the accuracy a two-pass MGS Arnoldi has,
+    # judged while the reference minimal relative residual rho_m >= 1e-8 (beyond it the routine may rightly call a breakdown)
     d = n if degree is None else min(degree, n)
-    cols = min(m_eff + 1, d, n)
+    produced = s_run + (1 if s_run + 1 <= Q.shape[1] and np.abs(Q[:, min(s_run, Q.shape[1] - 1)]).max(initial=0.0) > 0 else 0)
+    cols = min(m_eff + 1, d, n, max(produced, 1))
     rho = min_rel_residual(M.astype(complex if np.iscomplexobj(M) else float), v.astype(complex if np.iscomplexobj(M) else float), max(cols - 1, 0)) if cols > 1 else 1.0
     if rho >= 1e-8:
         G = Q[:, :cols].conj().T @ Q[:, :cols]
         dev = float(np.abs(G - np.eye(cols)).max(initial=0.0))
-        bound = 100 * eps * kappa / rho
+        # two Gram-Schmidt passes ("twice is enough"): the loss is O(eps kappa) whatever rho; measured on the unchanged tree
+        # over the thorough tier: <= 3 eps kappa.  (A single pass would lose eps kappa / rho.)
+        bound = 500 * eps * kappa
+        ctx.notes["max_orth_dev_over_eps_kappa"] = max(ctx.notes.get("max_orth_dev_over_eps_kappa", 0), int(dev / (eps * kappa)))
         ctx.check("orthonormal-basis", bool(dev <= bound), site="arnoldi", preds=preds, detail={"dev": dev, "bound": bound, "cols": cols, "rho": rho})
     else:
         ctx.note("orthonormality_skipped_exhausted_krylov_space")
